@@ -52,10 +52,11 @@ Atom(name) ==
       [] name = "Ms"  -> A(<< <<1, 1, 0>>, <<0, 1, 0>>, <<0, 0, 1>> >>, 1, Z3, 1, 1, FALSE)   \* shear
       [] name = "Md"  -> A(<< <<2, 1, 0>>, <<0, 1, 0>>, <<0, 0, 1>> >>, 1, Z3, 1, 1, FALSE)   \* determinant 2
       [] name = "Mu"  -> A(<< <<2, 1, 0>>, <<1, 1, 0>>, <<0, 0, 1>> >>, 1, Z3, 1, 1, FALSE)   \* determinant 1, not orthogonal
+      [] name = "Ma"  -> A(<< <<1, 1, 1>>, <<0, 1, 0>>, <<0, 0, 1>> >>, 1, Z3, 1, 1, FALSE)   \* a row of three entries of one sign: one corner of a box is the unique extreme along x
       [] name = "Rz"  -> A(<< <<0, -1, 0>>, <<1, 0, 0>>, <<0, 0, 1>> >>, 1, Z3, 1, 1, TRUE)   \* Rotation(z, pi/2)
       [] name = "Rx2" -> A(Diag(1, -1, -1), 1, Z3, 1, 1, TRUE)                                \* Rotation(x, pi)
       [] name = "Ry"  -> A(<< <<0, 0, 1>>, <<0, 1, 0>>, <<-1, 0, 0>> >>, 1, Z3, 1, 1, TRUE)   \* Rotation(y, pi/2)
-Atoms == {"T1", "T2", "S2", "Sh", "S3", "V", "Mp", "Ms", "Md", "Mu", "Rz", "Rx2", "Ry"}
+Atoms == {"T1", "T2", "S2", "Sh", "S3", "V", "Mp", "Ms", "Md", "Mu", "Ma", "Rz", "Rx2", "Ry"}
 
 MulV(m, p) == [i \in 1..3 |-> m[i][1] * p[1] + m[i][2] * p[2] + m[i][3] * p[3]]
 ApplyA(a, p) == LET q == MulV(a.m, p) IN [i \in 1..3 |-> q[i] \div a.den + a.off[i]]
